@@ -145,11 +145,17 @@ def job_inverse(job):
         one = {0: F(1)}
         for it in range(cfg.get('random', 10)):
             mode = rng.choice(['sparse', 'grade', 'perm', 'full', 'sparse', 'mixed3', 'mixed3'])
+            if alg.d == 5:
+                mode = rng.choice(['sparse', 'mixed3', 'mixed3', 'tiny'])     # dense 5-D patterns take minutes to generate
+            if alg.d >= 6:
+                mode = 'tiny'          # the iterative scheme is generated symbolically: keep the patterns small (cost, not correctness)
             if mode == 'mixed3':
                 # a few blades of mixed grade parity (closed-form inverses have grade-specific correction terms)
                 ev = [k for k in range(N) if bin(k).count('1') % 2 == 0]
                 od = [k for k in range(N) if bin(k).count('1') % 2 == 1]
                 ak = tuple(rng.sample(ev, min(len(ev), rng.randint(1, 2))) + rng.sample(od, min(len(od), rng.randint(1, 2))))
+            elif mode == 'tiny':
+                ak = tuple(rng.sample(range(N), rng.randint(1, 3)))
             else:
                 ak = rand_keys(rng, alg, mode) or (0,)
             if cfg.get('pad') and rng.random() < 0.3:
